@@ -41,38 +41,43 @@ def r1(ctx):
     ctx.check(len(inits) == 1 and norm(inits[0].value) in ("set()", "OrderedSet()") and inits[0].lineno < lp.lineno and
               not any(n == "spanned" for n, _, _ in assignments(lp)), "C03.R1", "`spanned` is created once, empty, before the term loop", f.where,
               ctx.construct(f, text="spanned init"), "the set of already-spanned scoped terms must persist across terms and start empty")
-    branch = [n for n in ast.walk(lp) if isinstance(n, ast.If) and norm(n.test) == "ensure_full_rank"]
-    if len(branch) != 1:
+    # one iteration with ensure_full_rank on, read off the path summaries: what is added to `spanned`, and what is yielded
+    try:
+        outs = sym.outcomes(fn)
+    except sym.Unmodelled as e:
+        raise AnalysisError(f"C03.R1: _get_scoped_terms cannot be summarised: {e}")
+    sl = [l for l in sym.loops_of(outs) if l._sym_orig is lp]
+    if not sl:
+        raise AnalysisError("C03.R1: term loop of _get_scoped_terms not found in its summaries")
+    its = [(k, effs, o) for k, effs, _env, o in sym.iteration_effects(outs, sl[0], {"ensure_full_rank": True}) if k == "yield" and any(pol and norm(c) == "ensure_full_rank" for c, pol in o.conds)]
+    if len(its) != 1:
         raise AnalysisError("C03.R1: `if ensure_full_rank` branch not found")
-    body = branch[0].body
-    env = {n: (v, st) for n, v, st in assignments(ast.Module(body=body, type_ignores=[]))}
-    # span variable: X = self._get_scoped_terms_spanned_by_evaled_factors(...) - spanned
-    span_var = None
-    for n, (v, st) in env.items():
-        if isinstance(v, ast.BinOp) and isinstance(v.op, ast.Sub) and norm(v.right) == "spanned" and "_get_scoped_terms_spanned_by_evaled_factors" in norm(v.left):
-            span_var = n
+    _k, effs, o = its[0]
+    SPAN = "self._get_scoped_terms_spanned_by_evaled_factors(ANY_ef) - spanned"
+    upd = [i for i, e in enumerate(effs) if isinstance(e, ast.Expr) and sym.pm("spanned.update(ANY_u)", e.value) is not None]
+    frozen = {e.targets[0].id: e.value for e in effs if isinstance(e, ast.Assign) and len(e.targets) == 1 and isinstance(e.targets[0], ast.Name)}
+    late = [e for i, e in enumerate(effs) if upd and i > upd[0] and isinstance(e, ast.Assign) and any(isinstance(n, ast.Name) and n.id == "spanned" for n in ast.walk(e.value))]
+
+    def resolve(e):
+        return sym.subst(e, frozen) if e is not None else None
+    ux = resolve(effs[upd[0]].value.args[0]) if len(upd) == 1 and effs[upd[0]].value.args else None
+    bu = sym.pm(SPAN, ux) if ux is not None else None
+    y = o.value
+    y_reads_late = bool(upd) and y is not None and any(isinstance(n, ast.Name) and n.id == "spanned" for n in ast.walk(y))
+    y2 = resolve(y)
+    by = sym.pm(f"({norm(lp.target)}, self._simplify_scoped_terms({SPAN}))", y2, dict(bu or {})) if y2 is not None else None
     ctx.look()
-    ctx.check(span_var is not None, "C03.R1", "the term's span has the already-spanned terms subtracted", f.module.line(branch[0]),
+    ctx.check(by is not None or bu is not None, "C03.R1", "the term's span has the already-spanned terms subtracted", f.module.line(lp),
               ctx.construct(f, text="span minus spanned"),
               "expected `<span> = self._get_scoped_terms_spanned_by_evaled_factors(evaled_factors) - spanned` in the full-rank branch")
-    if span_var is None:
-        return
-    simp = [(n, v, st) for n, (v, st) in env.items() if isinstance(v, ast.Call) and "_simplify_scoped_terms" in norm(v.func)]
-    ok = len(simp) == 1 and len(simp[0][1].args) == 1 and norm(simp[0][1].args[0]) == span_var
-    ctx.check(ok, "C03.R1", "simplification is applied to the reduced span", f.module.line(branch[0]), ctx.construct(f, text="simplify(span)"),
-              f"_simplify_scoped_terms must receive `{span_var}`")
-    upd = [s for s in body if isinstance(s, ast.Expr) and norm(s.value) == f"spanned.update({span_var})"]
-    # the span variable is never rebound by the simplification (its result goes to another name), so the update may
-    # stand on either side of it
-    ok_upd = len(upd) == 1 and bool(simp) and simp[0][0] != span_var
-    ctx.check(ok_upd, "C03.R1", "`spanned` is updated with the un-simplified span after simplification", f.module.line(branch[0]),
+    ctx.check(by is not None and not y_reads_late and not late, "C03.R1", "simplification is applied to the reduced span", f.module.line(lp), ctx.construct(f, text="simplify(span)"),
+              f"_simplify_scoped_terms must receive the term's span minus what was spanned before this term; the iteration yields `{norm(y2)[:160] if y2 is not None else None}`")
+    ctx.check(len(upd) == 1 and bu is not None and not late, "C03.R1", "`spanned` is updated with the un-simplified span after simplification", f.module.line(lp),
               ctx.construct(f, text="spanned.update(span)"),
-              f"expected `spanned.update({span_var})` after the simplification (updating with the simplified terms, or not at all, "
-              f"lets later terms re-span the same space)")
+              "expected one `spanned.update(<span>)` per term, with the span computed before the update (updating with the simplified terms, or not at all, "
+              "lets later terms re-span the same space)")
     # the simplified terms are what is yielded
-    ys = [n for n in ast.walk(lp) if isinstance(n, ast.Yield) and isinstance(n.value, ast.Tuple) and len(n.value.elts) == 2]
-    ok = any(norm(y.value.elts[1]) == (simp[0][0] if simp else "?") and norm(y.value.elts[0]) == norm(lp.target) for y in ys)
-    ctx.check(ok, "C03.R1", "each term yields its own simplified scoped terms", f.module.line(lp), ctx.construct(f, text="yield"),
+    ctx.check(by is not None, "C03.R1", "each term yields its own simplified scoped terms", f.module.line(lp), ctx.construct(f, text="yield"),
               "the loop must yield (term, scoped_terms)")
 
 
@@ -174,9 +179,12 @@ def r3(ctx):
         ctx.check(any(isinstance(x, ast.Break) for x in b.body) and (any(norm(x) == "combined = True" for x in b.body) or for_else), "C03.R3",
                   "after a merge the candidate is not also appended", s.module.line(b), ctx.construct(s, text="combined flag"),
                   "the merge branch must set combined = True and break")
-    tail = [n for n in lp.body if isinstance(n, ast.If) and norm(n.test) == "not combined"]
-    ok = (len(tail) == 1 and norm(tail[0].body[0]) == "terms = terms | (scoped_term,)") or \
-        (bool(il.orelse) and [norm(x) for x in il.orelse] == ["terms = terms | (scoped_term,)"] and not tail)
+    from ..util import atom_mapper, reach_condition, truth_table
+    inner = {id(x) for x in ast.walk(il)}
+    apps_ = [n for n in ast.walk(lp) if isinstance(n, ast.Assign) and norm(n) == "terms = terms | (scoped_term,)" and id(n) not in inner]
+    rc_ = reach_condition(P, apps_[0], mention="combined") if len(apps_) == 1 else None
+    ok = (rc_ is not None and truth_table(rc_, atom_mapper({"combined": 0}), 1) == (True, False)) or \
+        (bool(il.orelse) and [norm(x) for x in il.orelse] == ["terms = terms | (scoped_term,)"] and not apps_)
     ctx.check(ok, "C03.R3", "an unmerged candidate is appended unchanged", s.module.line(lp), ctx.construct(s, text="append"),
               "expected `if not combined: terms = terms | (scoped_term,)`")
 
